@@ -27,8 +27,12 @@ def bounds(tier):
 
 def jobs(tier):
     b = bounds(tier)
-    return [{"name": "%s/%s" % (sh, leaf), "shape": sh, "leaf": leaf, "depth": b["depth"], "tier": tier}
-            for sh in b["shapes"] for leaf in b["leaves"]]
+    out = [{"name": "%s/%s" % (sh, leaf), "shape": sh, "leaf": leaf, "depth": b["depth"], "tier": tier}
+           for sh in b["shapes"] for leaf in b["leaves"]]
+    for sh in ("nested+late", "cfglist+late", "nested+env"):
+        for leaf in ["list-int", "dict-typed", "list-int-cd", "dict-any-dflt", "dict-of-lists"]:
+            out.append({"name": "%s/%s" % (sh, leaf), "shape": sh, "leaf": leaf, "depth": b["depth"], "tier": tier})
+    return out
 
 
 def extra_ops(spec, leaf):
